@@ -192,8 +192,8 @@ func TestPropSmallScope(t *testing.T) {
 								}
 							}
 						}
-						if m.intraClusterCandidate(0, m.n) {
-							labels["enum_inputs_with_uax14_candidate_inside_cluster"]++
+						if m.unusableCandidateIn(0, m.n) {
+							labels["enum_inputs_with_uax14_candidate_inside_glyph_or_grapheme_cluster"]++
 						}
 						labels["enum_inputs"]++
 					}
